@@ -28,7 +28,7 @@ REQUIRED = ["contract:CVR.consistent_sampling", "draws_checked", "thresholds_che
             "determinism_checked", "vote_independence_checked", "draws_with_skipped_cards", "sizes:ones", "sizes:all",
             "sizes:one_exhausted", "sizes:random", "sizes:some_zero", "draws_with_a_zero_size_contest_among_positive_ones", "continued_draws_checked",
             "continued_draw_with_some_sizes_lowered_and_some_raised", "data_prefix_checked_with_cvrs_as_mvrs:ONEAUDIT",
-            "data_prefix_checked_with_cvrs_as_mvrs:CARD_COMPARISON", "draws_with_phantoms_selected", "cards_listing_no_contest_present", "polling_order_checked", "mismatched_sample_refused", "second_draw_same_contest_objects", "draw_after_sample_numbers_reassigned"]
+            "data_prefix_checked_with_cvrs_as_mvrs:CARD_COMPARISON", "vote_independence_checked:cards_sharing_identifiers", "draws_with_phantoms_selected", "cards_listing_no_contest_present", "polling_order_checked", "mismatched_sample_refused", "second_draw_same_contest_objects", "draw_after_sample_numbers_reassigned"]
 ASSUMPTIONS = ["distinct sample numbers; n_c <= number of cards listing c; dict keys equal contest ids; thresholds for "
                "n_c = 0 are unconstrained"]
 N_CASES = {"quick": 19200, "thorough": 200000}
@@ -306,7 +306,9 @@ def run_case(es, rec):
     twin = []
     for j, cv in enumerate(sim.cvr_list):
         votes = {cid: {f"w{rng.randint(0, 3)}": rng.choice((1, 0, True, "x"))} for cid in cv.votes}
-        t = CVR(id=f"t{len(sim.cvr_list) - j}", votes=votes, phantom=not cv.phantom, pool=rng.random() < 0.5,
+        # identifiers are contents too: several cards may even share one (per-batch card numbers, ids not yet assigned)
+        t = CVR(id=(f"t{(len(sim.cvr_list) - j) % 3}" if len(sim.cvr_list) % 2 else f"t{len(sim.cvr_list) - j}"),
+                votes=votes, phantom=not cv.phantom, pool=rng.random() < 0.5,
                 tally_pool=rng.choice(("q1", "q2")))
         t.sample_num = cv.sample_num
         # every other attribute a record may carry from earlier steps (the sampling probability left by a sample-size
@@ -322,6 +324,8 @@ def run_case(es, rec):
     if not ok:
         return
     rec.count("vote_independence_checked")
+    if len(sim.cvr_list) % 2 and len(sim.cvr_list) > 3:
+        rec.count("vote_independence_checked:cards_sharing_identifiers")
     if [int(i) for i in idx2] != idx or {cid: con.sample_threshold for cid, con in con2.items() if sizes[cid] >= 1} != \
             {cid: t for cid, t in thresholds.items() if sizes[cid] >= 1}:
         rec.violation("c07.votes", "selection_depends_on_vote_contents_or_flags", {"original": idx, "twin": [int(i) for i in idx2]})
